@@ -19,7 +19,7 @@ CHECKS = {
         technique="forward must-dataflow (reaching constants, allocation sizes, guard dominance) + symbolic extent comparison over the clang CFG",
     ),
     "C19": dict(
-        text="Static decision, on all paths of all library functions under the BASE, DYNAMIC-allocation and MULTI(pthread) configuration headers, of the structural clauses of the error-handling/context state machine: handler chain restored (TRY-BALANCE, REGION-DEPTH), finaliser exactly once and before the handler (FINALLY-ONCE/-EXIT), nothing in a finaliser can clear the pending exception (FINALLY-PURE), sticky code stored first and a throw with a handler never falls through (THROW-CODE), protocol fields written only by the protocol (CTX-WRITERS), no writable shared state besides the (thread-local under MULTI) context pointer (NO-SHARED-STATE). This is the right level because these clauses are visible in the shape of the code on every path and the suite runs one nesting shape in one configuration; value-level equality after re-parameterisation is not decided.",
+        text="Static decision, on all paths of all library functions under the BASE, DYNAMIC-allocation and MULTI(pthread) configuration headers, of the structural clauses of the error-handling/context state machine: handler chain restored (TRY-BALANCE, REGION-DEPTH), finaliser exactly once and before the handler (FINALLY-ONCE/-EXIT), nothing in a finaliser can clear the pending exception (FINALLY-PURE), sticky code stored first and a throw with a handler never falls through (THROW-CODE), protocol fields written only by the protocol (CTX-WRITERS), no writable shared state besides the (thread-local under MULTI) context pointer (NO-SHARED-STATE), and every normal return of a parameter setter has passed the installation sequence, a skip keyed on the identifier being admissible only if every public installer of that state writes the identifier (INSTALL-MUST: 'after any sequence of parameter selections'). This is the right level because these clauses are visible in the shape of the code on every path and the suite runs one nesting shape in one configuration; value-level equality after re-parameterisation is not decided.",
         design_ref="DESIGN.md section 3 (C19)",
         note="Trusted: clang 14 parser/CFG/constant evaluator, the extractor, the semantic interpretation of the TRY/CATCH/THROW macro expansion in sa/py/relic_sa/xcfg.py (checked on every run by violating and conforming miniatures in sa/selftest/c19.c), cmake's relic_conf.h. Assumes callees reached through function pointers may throw.",
         technique="exploded-CFG typestate/balance analysis of the setjmp protocol + call-graph effect analysis + who-may-write rule over the clang AST/CFG",
